@@ -402,7 +402,11 @@ fn check_pca<T: RealNumber>(c: &mut Case, d: &Data, corr: bool) {
                 c.bucket("pca:corr-uses-sample-sd");
             }
         }
-        c.ratio("pca.orthonormal", oerr, to, &sg, || format!("‖WᵀW − I‖_F, W = projection in the coordinates of the {} data, k={}", if corr { "standardised" } else { "centred" }, k));
+        // correlation mode: the library standardises with its own column means / deviations, whose relative
+        // rounding error is eps * mean|x_j| / sd_j (large column means); that conditioning of the input enters
+        // the column norms of W
+        let to_k = if corr { to + 32.0 * eps::<T>() * (0..p).map(|j| if r.sd[j] > 0.0 { absmu.at(0, j) / r.sd[j] } else { 0.0 }).fold(0.0f64, f64::max) } else { to };
+        c.ratio("pca.orthonormal", oerr, to_k, &sg, || format!("‖WᵀW − I‖_F, W = projection in the coordinates of the {} data, k={}", if corr { "standardised" } else { "centred" }, k));
         // ---- (a) transform is the affine map x -> (x − mean)·P
         let tref = r.xc.mul(&P);
         let absP = abs(&P);
